@@ -17,6 +17,7 @@ type Options struct {
 	KnownFile   string
 	UseCHA      bool
 	Explain     string
+	Extra       string // JSON file merged into the evidence's coverage (thorough tier extras)
 }
 
 func Main(o Options) int {
